@@ -12,6 +12,7 @@ import (
 
 	"github.com/evolbioinfo/goalign/align"
 	"github.com/evolbioinfo/goalign/distance/dna"
+	"github.com/evolbioinfo/goalign/verifhook"
 )
 
 type distOpts struct {
@@ -467,6 +468,7 @@ func recordRun(rows [][]int, o distOpts, cpus, failDist, failSeq int) *concRun {
 	stop := rec.install()
 	ev := faultCall(rows, o, cpus, failDist, failSeq)
 	logs := stop()
+	verifhook.Hook = nil // every goroutine of DistMatrix is finished when it returns without hanging
 	if ev.Kind == "hang" || ev.Kind == "panic" {
 		return &concRun{T: "conc", Ret: ev.Kind, Logs: []*gLog{}, Rows: rows, FD: failDist, FS: failSeq}
 	}
